@@ -7,7 +7,7 @@ CONSTANTS Ids = {1, 2}
  Items = {1, 2, 3, 4, 5}
  Weights = {1}
  LgMaxs = {2}
- MaxTotal = 7
+ MaxTotal = 6
  LgMin = 1
  EmptyTest = "weight"
 INVARIANT DInv CInv
